@@ -2266,7 +2266,7 @@ impl LineBuf {
 	}
 	pub fn replace_range(&mut self, start: usize, end: usize, new: &str) {
 		self.update_graphemes_lazy();
-		let start_byte_pos = self.grapheme_indices().get(start).copied().unwrap_or(0);
+		let start_byte_pos = self.grapheme_indices().get(start).copied().unwrap_or(self.buffer.len());
 		let end_byte_pos = self.grapheme_indices().get(end).copied().unwrap_or(self.buffer.len());
 		self.buffer.replace_range(start_byte_pos..end_byte_pos, new);
 		self.update_graphemes();
